@@ -342,6 +342,11 @@ func (x *Exec) runInstrs(st *State, fr *Frame, b *ssa.BasicBlock, prev *ssa.Basi
 			x.doGo(st, fr, in)
 		case *ssa.Select:
 			x.abstracted["select"] = true
+			for _, ss := range in.States {
+				if ss.Dir == types.SendOnly {
+					x.sendCheck(st, x.val(st, fr, ss.Chan), in.Pos())
+				}
+			}
 			// nondeterministic choice
 			t := in.Type().(*types.Tuple)
 			res := Val{T: t}
@@ -458,6 +463,7 @@ func (x *Exec) execEffect(st *State, fr *Frame, ins ssa.Instruction) {
 		st.hset(vc, "(store "+hv+" "+m.S+" (store (select "+hv+" "+m.S+") "+kv.S+" "+st.valTerm(vv)+"))")
 	case *ssa.Send:
 		x.abstracted["chan send"] = true
+		x.sendCheck(st, x.val(st, fr, in.Chan), in.Pos())
 	case *ssa.DebugRef:
 	default:
 		x.reject("unmodelled instruction %T", ins)
@@ -1104,4 +1110,12 @@ func (x *Exec) tryMergeIf(st *State, fr *Frame, b *ssa.BasicBlock, in *ssa.If, c
 	}
 	x.runInstrs(st, fr, join, predT, n, k)
 	return true
+}
+
+// sendCheck: a send on a closed channel panics (C12-W2 / C08).
+func (x *Exec) sendCheck(st *State, ch Val, pos token.Pos) {
+	if _, ok := x.w.classes["ghost:$chclosed"]; !ok || ch.S == "" {
+		return
+	}
+	x.oblige(st, "safety:sendclosed", x.site("send", pos), "", append([]string{"C12"}, x.safetyTags...), sNot("(select "+st.hget("ghost:$chclosed")+" "+ch.S+")"), pos, "send on closed channel")
 }
